@@ -35,6 +35,7 @@ import (
 type Clause struct {
 	Trusted  bool // "ensures!": assumed at call sites, not checked against the body (listed)
 	Optional bool // "?": only where evaluable (speaks about locals / dynamic values)
+	Post     bool // ghostpost: value evaluated in the post-state
 	Label string
 	Src   string
 	Line  string // file:line
@@ -326,6 +327,12 @@ func (cs *ContractSet) loadFile(path string) error {
 			cur.CallSites[f[0]], _ = strconv.Atoi(f[1])
 		case "ghostset":
 			cur.GhostSets = append(cur.GhostSets, mk())
+		case "ghostpost":
+			// like ghostset, but the value is evaluated in the post-state (it may
+			// speak about results and about what the callee wrote)
+			c := mk()
+			c.Post = true
+			cur.GhostSets = append(cur.GhostSets, c)
 		case "ghost":
 			for _, p := range strings.Split(rest, ",") {
 				if p = strings.TrimSpace(p); p != "" {
